@@ -27,6 +27,10 @@ GLOBAL_ASSUMPTIONS = [
     "dropped calls (logging, explain chain, timing, print) have no effect on contract-mentioned state",
     "termination is not proved",
     "dict iteration is insertion ordered (CPython >= 3.7)",
+    "float(str)/int(str) are uninterpreted total functions of the text with an uninterpreted 'parses' predicate (int: plus decimal-digit axioms); "
+    "a list comprehension without condition is a fresh list of the same length with unconstrained elements (element expression assumed pure and non-raising)",
+    "os.sep is '/' (POSIX); an object is truthy unless its class defines __bool__/__len__, in which case that method decides",
+    "a parameter named in a postcondition denotes the argument passed (entry binding); symbolic dicts are str-keyed",
 ]
 
 
